@@ -239,6 +239,8 @@ class Ctx:
         global _KINDS
         _KINDS = self.mod.KINDS
         r = _exec_case(v["case"])
+        if r.extra.get("harness_errors"):
+            print(r.extra.get("harness_error_text"))
         return any(x["key"] == v["key"] for x in r.viol)
 
     def _write_evidence(self, n_viol, n_known, harness_error=False):
